@@ -2,7 +2,9 @@ mod alloc;
 mod bits;
 mod catalogue;
 mod codec;
+#[cfg(feature = "derive_cat")]
 mod derive;
+#[cfg(feature = "derive_cat")]
 mod derive_gen;
 mod lowlevel;
 mod model;
@@ -207,12 +209,21 @@ fn main() {
         alloc::run_alloc_large(&mut ctx);
         alloc::run_alloc_deep(&mut ctx);
     }
-    if ctx.on("derive") {
-        use derive::run_derive;
-        for_each_derived!(run_derive, &mut ctx);
+    #[cfg(feature = "derive_cat")]
+    {
+        if ctx.on("derive") {
+            use derive::run_derive;
+            for_each_derived!(run_derive, &mut ctx);
+        }
+        if ctx.on("legacy") {
+            derive::run_legacy(&mut ctx);
+        }
     }
-    if ctx.on("legacy") {
-        derive::run_legacy(&mut ctx);
+    #[cfg(not(feature = "derive_cat"))]
+    {
+        if ctx.on("derive") || ctx.on("legacy") {
+            ctx.out.m("derive", "derive-catalogue-does-not-compile", &["accepts", "DS--()"]);
+        }
     }
     if ctx.on("meta") || ctx.on("enc") || ctx.on("entry") || ctx.on("dec") || ctx.on("alloc") {
         for_each_type!(run_type, &mut ctx);
